@@ -85,15 +85,19 @@ def texts_of(cs):
     return {l: [(c_.start, c_.get_text()) for c_ in cs.get_captions(l)] for l in cs.get_languages()}
 
 
+SHARED_WRITERS = {}
+
+
 def bounded(ctx, b):
     rng = random.Random(ctx.seed)
+    SHARED_WRITERS.update({"sami": SAMIWriter(), "dfxp": DFXPWriter()})
     n = 150 if not ctx.thorough else 3000
     for i in range(n):
         langs, cs = gen_set(rng, rng.choice([1, 2, 3, 4]))
         want = texts_of(cs)
 
         def sami_out(cs=cs, langs=langs, want=want):
-            doc = SAMIWriter().write(cs)
+            doc = SHARED_WRITERS["sami"].write(cs)       # (one writer object for every document of the run)
             d = parsers.parse_sami(doc)
             if d["syncs"] != sorted(d["syncs"]):
                 return False, {"sync_blocks_out_of_order": d["syncs"], "doc": doc[-900:]}
@@ -118,7 +122,7 @@ def bounded(ctx, b):
         b.guard(("sami", i), sami_out, sample={"format": "sami", "languages": langs, "cues": want})
 
         def dfxp_out(cs=cs, langs=langs, want=want):
-            doc = DFXPWriter().write(cs)
+            doc = SHARED_WRITERS["dfxp"].write(cs)
             d = parsers.parse_dfxp(doc)
             if d["langs"] != langs:
                 return False, {"div_languages": d["langs"], "expected": langs}
@@ -140,9 +144,11 @@ def bounded(ctx, b):
             ok = d["langs"] == [pick] and [cu["lines"][0] for cu in d["cues"][pick]] == [t for _, t in want[pick]]
             d2 = parsers.parse_dfxp(LegacyDFXPWriter().write(cs, force=pick))
             ok = ok and d2["langs"] == [pick]
-            if want[pick]:
-                v = parsers.parse_webvtt(WebVTTWriter().write(cs, lang=pick))
-                ok = ok and [cu["lines"][0] for cu in v] == [t for _, t in want[pick]]
+            # WebVTT lang= writes exactly the named language: its cues, or none when it has none / is absent
+            v = parsers.parse_webvtt(WebVTTWriter().write(cs, lang=pick))
+            ok = ok and [cu["lines"][0] for cu in v] == [t for _, t in want[pick]]
+            if any(want[l] for l in langs):
+                ok = ok and parsers.parse_webvtt(WebVTTWriter().write(cs, lang="zz-ZZ")) == []
             first = langs[0]
             if want[first]:
                 v0 = parsers.parse_webvtt(WebVTTWriter().write(cs))
